@@ -227,8 +227,18 @@ func runAuth(c Case, tr *Tracer) {
 	var resp2 string
 	var st2 []byte
 	decerr = err != nil
+	// every second exchange the client recomputes first, from the status octets where they lie in its (larger,
+	// reused) read buffer, and decodes the frame afterwards
+	var early []byte
 	if !decerr {
-		rbuf2 := append([]byte{}, wire2...)
+		rbuf2 := append(make([]byte, 0, len(wire2)+64), wire2...)
+		if lib && caseInt(c, "t")%2 == 1 && len(rbuf2) >= 16 {
+			k := 4
+			if proto == "cmpp20" {
+				k = 1
+			}
+			early = cmpp.GenConnectRespAuthISMG(rbuf2[12:12+k], string(auth), sec)
+		}
 		scribble := func() {
 			for i := range rbuf2 {
 				rbuf2[i] = 0xAA
@@ -258,7 +268,9 @@ func runAuth(c Case, tr *Tracer) {
 	}
 	// ---- client verifies: recomputation from the authenticator it sent
 	var rc []byte
-	if lib {
+	if early != nil {
+		rc = early
+	} else if lib {
 		rc = cmpp.GenConnectRespAuthISMG(st2, string(auth), sec)
 	} else {
 		d := md5.Sum(append(append(append([]byte{}, st2...), auth...), sec...))
